@@ -115,6 +115,30 @@ def worker(job):
             for code, text in errs[:1]:
                 out["viol"].append(("%s:%s" % (kind, code), {"tool": kind, "args": res["args"], "why": text, "prefilled": it["prefill"],
                                                               "source": it["src"].decode("latin-1")[:3000]}))
+        elif kind == "maxcycles":
+            d = common.scratch("c14mc")
+            open(os.path.join(d, "p.x"), "wb").write(it["src"])
+            c = subprocess.run([os.path.join(cli, "xcmp"), "p.x", "-o", "t.bin"], cwd=d, stdout=subprocess.PIPE, stderr=subprocess.PIPE, timeout=120)
+            if c.returncode == 0:
+                for lim in (it["k"] - 1, it["k"], it["k"] + 7, 0):
+                    for tool, args in (("hexsim", ["t.bin", "--max-cycles", str(lim)]), ("hexsim", ["--max-cycles", str(lim), "t.bin"]),
+                                       ("xrun", ["p.x", "--max-cycles", str(lim)])):
+                        if lim <= 0 and "--max-cycles" in args and lim < 0:
+                            continue
+                        try:
+                            r1 = subprocess.run([os.path.join(cli, tool)] + args, cwd=d, input=it["stdin"], stdout=subprocess.PIPE, stderr=subprocess.PIPE, timeout=120)
+                        except subprocess.TimeoutExpired:
+                            continue
+                        out["n"] += 1
+                        h = "%s/max-cycles=%s" % (tool, "K-1" if lim == it["k"] - 1 else ("K" if lim == it["k"] else ("K+7" if lim else "0")))
+                        out["hist"][h] = out["hist"].get(h, 0) + 1
+                        if r1.returncode != (it["exit"] & 0xFF) or r1.stdout != it["stdout"]:
+                            out["viol"].append(("%s:status-under-cycle-limit" % tool,
+                                                {"why": "%s %s: status %s stdout %r; the program exits with %d after %d instructions and prints %r"
+                                                        % (tool, " ".join(args), r1.returncode, r1.stdout[:40], it["exit"], it["k"], it["stdout"][:40]),
+                                                 "source": it["src"].decode("latin-1")[:3000]}))
+                            break
+            shutil.rmtree(d, ignore_errors=True)
         elif kind == "xrun":
             # xrun f.x  ==  xcmp f.x -o t ; hexsim t   (same stdin)
             r1 = invoke(cli, "xrun", "p.x", it["src"], "default", "", False, stdin=it["stdin"])
@@ -211,7 +235,28 @@ def make_items(tier, rnd):
                 ref = xref.Interp(prog, console, {}).run()
                 if ref["status"] == "defined":
                     ex = ref["exit"]
-            items.append({"kind": "xrun", "src": s, "stdin": console, "accepted": o["ok"], "exit": ex})
+            # run only programs the reference deems well-defined (an ill-defined one may drive the simulator outside its
+            # memory, where it has no defined behaviour) and sources that are rejected (nothing runs)
+            if ex is not None or not o["ok"]:
+                items.append({"kind": "xrun", "src": s, "stdin": console, "accepted": o["ok"], "exit": ex})
+    # the cycle limit must not change the status of a program that does exit within it (limit = K-1 is the last one that lets
+    # the exit call execute, K the instruction count including the exit call)
+    probe = []
+    for i in range(40 if tier == "quick" else 600):
+        prog, console, files = xgen.random_program(random.Random(rnd.randrange(1 << 62)), size=0.5)
+        if files:
+            continue
+        ref = xref.Interp(prog, console, {}).run()
+        if ref["status"] == "defined":
+            probe.append((xref.render_program(prog).encode("latin-1"), console, ref["exit"]))
+    for val in (3, 255, 256, -1):
+        lit = "%d" % val if val >= 0 else "(0 - %d)" % -val
+        probe.append((("proc main() is 0(%s)" % lit).encode(), b"", val))
+    pres = common.run_harness(hx, [(i, {"src": s, "input": c}) for i, (s, c, e) in enumerate(probe)], args=["cases"], tag="c14k")
+    for i, (s, c, e) in enumerate(probe):
+        r = pres[str(i)]
+        if r["status"] == "ok" and r["out"] and r["out"].get("ok") and r["out"]["ended"] == "exit":
+            items.append({"kind": "maxcycles", "src": s, "stdin": c, "exit": e, "k": r["out"]["cycles"], "stdout": common.unhex(r["out"]["console"])})
     # exit values 0, 1, 7, 255, 256, -1 through hexsim/xrun
     for val in (0, 1, 7, 255, 256, 257, -1, -256, 65535):
         lit = "%d" % val if val >= 0 else "-%d" % -val
